@@ -21,7 +21,7 @@ from ..lib import driver, gen, implrun, ser
 ID = "C05"
 LEAN_MODULES = ["TakVerif.Props.C05"]
 # cross-operation sessions (lib/session.py): which operations this property judges
-SESSION = {"kinds": {"retained"}}
+SESSION = {"kinds": {"retained", "copy"}}
 RULE = (
     "game TREES on sizes 3..8: all positions ever created stay retained (hundreds per tree; thorough: thousands); ops "
     "are drawn at random against random retained positions: legal moves (biased to slides), every-kind well-formed "
